@@ -617,7 +617,8 @@ def shard_small(args):
     for i, case in enumerate(factory()):
         if i % NSHARD != idx:
             continue
-        token = evaluate(case, part)
+        # the oracle's own sanity check runs on every case up to 6 variables, on every 8th of the 2M 7-variable graphs
+        token = evaluate(case, part, selfcheck=(case["n"] <= 6 or i % 8 == 0))
         part.count("cases:" + label)
         account(case, part, token, sample=(i in (5, 77)))
     return part
